@@ -3,7 +3,7 @@ import ast, inspect, math, os
 import numpy as np, scipy.sparse as sp
 from fractions import Fraction
 from vp.coqrun import fl, zlist, flist, clist, parse_zlist
-from vp import srcparams
+from vp import srcparams, link
 from vp.common import REPO
 import umap, umap.umap_ as U
 
@@ -258,6 +258,11 @@ def run(ctx):
     import time
     t0 = time.time()
     ctx.check_proofs(["prop/P_C16.v"])
+    # translation tie: fast_intersection regenerated from the current source; link theorem: for every COO matrix, label array
+    # and pair of distances the translated source rescales each stored value exactly as the model's attenuate does
+    link.check(ctx, "umap_sup", {"fast_intersection": "src_fast_intersection_eq"},
+               {"reset_local_connectivity": "SciPy / scikit-learn calls (normalize, transpose, multiply): outside the py2coq subset",
+                "discrete_metric_simplicial_set_intersection": "SciPy COO object manipulation: outside the py2coq subset"})
     t0 = _phase(ctx, "proofs", t0)
     rng = ctx.rng
     npr = np.random.RandomState(rng.randrange(2 ** 31))
